@@ -1,9 +1,9 @@
-import Arc.Proofs.C02.Column
+import Arc.Proofs.C02.Glue
 import Arc.Proofs.C02.RoundTrip
 /-
 C02 — Typed MessagePack decoding is indistinguishable from generic decoding.
 
-FULL STATEMENT (kept visible; it is FALSE of the current tree — two finding classes, witnesses below):
+FULL STATEMENT (kept visible; FALSE of the current tree — one known finding class, witness below):
 
     theorem C02_full (F : FloatSem) (hF : FloatLaws F) (san : Bytes → Bytes) :
         ∀ (b : Bytes) (now : Int),
@@ -14,82 +14,44 @@ chokepoint `convertColumnsToTyped` that `ArrowBuffer.Write` applies to every gen
 `observe` keeps accepted?/error class, measurement, per column (type, values, null positions), row
 count, and replaces a generated time column by a marker.
 
-What is proved here, for ALL inputs of the stated kind and ANY float semantics satisfying `FloatLaws`:
+PROVED, for ALL byte strings and ANY float semantics satisfying `FloatLaws`:
 
-* `C02_fallback_sound`      a typed miss is observationally the generic path (by construction);
-* `C02_full_witness_skip`, `C02_full_witness_dup`   concrete bodies on which the two paths differ
-                             (replayed on the real code by the harness: keys in props/C02.py);
-* `C02_*Elem_agrees`, `C02_valueColumn_agrees`, `C02_timeColumn_agrees`, `C02_measurement_agrees`
-                             the per-class content of `C02_hit_agrees`: whenever the typed decoder
-                             accepts a column / the time column / the measurement value, the library
-                             boxes every element as a scalar and the generic converter yields the same
-                             type, values, null positions (unit detection from element 0 in both);
-* `C02_units_same`, `C02_accepted_kinds`, `C02_guards`, `C02_code_classes`   re-checked by `decide`
-                             over the tables regenerated from the current sources.
+* `C02_full_partial`        `Carve b → observe (decode on b) = observe (decode off b)`
+* `C02_hit_agrees_partial`  `Carve b → typedPath b = some r → genericPath b = ok [col r'] ∧ r ≈ r'`
+                            (no restriction on the key set: extra/ignored keys, duplicate keys, any key
+                            order, non-array column values, generated or supplied time are all covered)
+* `C02_fallback_sound`      a typed miss IS the generic path
+* per class: `C02_*Elem_agrees`, `C02_valueColumn_agrees`, `C02_timeColumn_agrees`, `C02_measurement_agrees`
+* `C02_full_witness_skip`   the finding: a body OUTSIDE `Carve` on which on ≠ off
+* `C02_dup_nonarray_falls_back`  regression of the fixed finding (commit d7052e6)
+* `C02_roundtrip_leaf`, and the `decide` theorems over the tables regenerated from the sources.
 
-NOT proved (validated by the correspondence harness only, 0 disagreements): the map-level glue of
-`C02_hit_agrees` — key handling of the top-level and `columns` maps (last-wins de-duplication,
-skipped keys), equal-length check, generated time column, and that normalisation/sanitisation leave
-the other columns alone — i.e. the step from the per-column theorems to
-`typedPath b = some r → Carve b → genericPath b = .ok [.col r'] ∧ maskRec r = maskRec r'`.
-`Carve` (decidable, below) excludes exactly the two finding classes.
+`Carve b` (decidable, `Arc/Proofs/C02/Glue.lean`) excludes EXACTLY this input class: the body decodes to
+a map in which some value that the typed path merely `Skip()`s — the value of a top-level str key
+other than "m" / "columns" / "batch", or a non-array value inside a map under a "columns" key — is an
+ARRAY, a MAP or an EXT value. (Scalars, strings and bin under ignored keys are inside the theorem.)
+For such values the generic path must box what the typed path skips and can fail (unknown ext id,
+non-string-keyed map with nil / uncomparable / undecodable keys); that is the known finding
+`accept-differs:typed-Skip-vs-generic-Unmarshal:{error,panic}`. Over-approximation: containers/ext
+that WOULD box are excluded too (the existing repo test requires a hit for `"tags": {…}`).
+
+Validated by the harness only: `goBox` = the library, the tree-level `typedPath` = the streaming
+decoder, and the executable IEEE instance.
 -/
 namespace Arc.C02
 open Arc.Generated.C02
 
 /-! ## observation -/
 
-/-- a generated time column (always the last one) is replaced by the marker `genTime = true`. -/
-def maskRec (r : TypedRec) : TypedRec :=
-  if r.genTime then { r with cols := r.cols.dropLast } else r
-
 def maskItem : Item → Item
   | .col r => .col (maskRec r)
   | it => it
 
+/-- accepted? / error class, measurement, columns (type, values, null positions), row count; a
+generated time column is replaced by the marker `genTime` (see `maskRec`). -/
 def observe : Outcome → Outcome
   | .ok its => .ok (its.map maskItem)
   | .error e => .error e
-
-/-! ## carve-out = complement of the two finding classes -/
-
-/-- finding class 1 is absent: `msgpack.Unmarshal` of the whole body succeeds (the typed path
-`Skip()`s values — unknown top-level keys, non-array column values — that the generic path must box:
-unknown ext ids, non-string-keyed maps with undecodable / uncomparable / nil keys, …). -/
-def unmarshalOk (F : FloatSem) (b : Bytes) : Bool :=
-  match unmarshal F b with
-  | .ok _ => true
-  | .error _ => false
-
-def strKey? : MV → Option Bytes
-  | .str _ s => some s
-  | _ => none
-
-def isArr : MV → Bool
-  | .arr _ _ => true
-  | _ => false
-
-/-- finding class 2 is absent in a flattened `columns` map: no key carries an array value and LATER
-a non-array value (typed path keeps the array, Go's last-wins map drops the column). -/
-def shadowFree : List MV → Bool
-  | k :: v :: rest =>
-    (if isArr v then
-      !(pairs rest).any (fun p => strKey? p.1 == strKey? k && !isArr p.2)
-     else true) && shadowFree rest
-  | _ => true
-
-def columnsShadowFree : MV → Bool
-  | .map _ kvs => (pairs kvs).all fun p =>
-      match p.1, p.2 with
-      | .str _ key, .map _ ckvs => if key == columnsName then shadowFree ckvs else true
-      | _, _ => true
-  | _ => true
-
-def Carve (F : FloatSem) (b : Bytes) : Bool :=
-  unmarshalOk F b &&
-  (match decode b with
-   | some (v, _) => columnsShadowFree v
-   | none => true)
 
 /-! ## fallback -/
 
@@ -118,7 +80,7 @@ def wSkip : Bytes :=
   [0x83, 0xa1, 0x6d, 0xa1, 0x78, 0xa7, 0x63, 0x6f, 0x6c, 0x75, 0x6d, 0x6e, 0x73, 0x81, 0xa1, 0x61,
    0x91, 0x01, 0xa1, 0x7a, 0xd4, 0x05, 0x00]
 
-/-- `{"m":"x","columns":{"a":[1],"b":[2],"a":5}}` -/
+/-- `{"m":"x","columns":{"a":[1],"b":[2],"a":5}}` (fixed finding, commit d7052e6) -/
 def wDup : Bytes :=
   [0x82, 0xa1, 0x6d, 0xa1, 0x78, 0xa7, 0x63, 0x6f, 0x6c, 0x75, 0x6d, 0x6e, 0x73, 0x83, 0xa1, 0x61,
    0x91, 0x01, 0xa1, 0x62, 0x91, 0x02, 0xa1, 0x61, 0x05]
@@ -131,20 +93,64 @@ theorem C02_full_witness_skip (F : FloatSem) (san : Bytes → Bytes) (now : Int)
     decodeWith F san false now wSkip = .error .unmarshal := by
   constructor <;> rfl
 
-/-- Finding 2: flag ON stores columns `a` and `b`, flag OFF (last-wins map, non-array dropped) only `b`. -/
-theorem C02_full_witness_dup (F : FloatSem) (san : Bytes → Bytes) :
-    decodeWith F san true 1700000000000000 wDup
-        = .ok [.col ⟨[0x78], [⟨[0x61], .i64 [1], none⟩, ⟨[0x62], .i64 [2], none⟩,
-                              ⟨timeName, .i64 [1700000000000000], none⟩], 1, true⟩] ∧
-    decodeWith F san false 1700000000000000 wDup
-        = .ok [.col ⟨[0x78], [⟨[0x62], .i64 [2], none⟩,
-                              ⟨timeName, .i64 [1700000000000000], none⟩], 1, true⟩] := by
+/-- the source still carries the fix (flag regenerated by factgen from `decodeTypedColumns`) -/
+theorem C02_nonarray_dup_fallback : nonArrayDupFallsBack = true := by decide
+
+/-- Regression of the fixed finding: a non-array value after an array under the same column key
+makes the typed path fall back, so both settings run the generic path (column `a` dropped in both). -/
+theorem C02_dup_nonarray_falls_back (F : FloatSem) (san : Bytes → Bytes) (now : Int) :
+    typedPath F san now wDup = none ∧
+    decodeWith F san true now wDup = decodeWith F san false now wDup := by
+  have h : typedPath F san now wDup = none := by rfl
+  exact ⟨h, by simp [decodeWith, h]⟩
+
+/-- the witness is outside the carve-out; ordinary bodies (here the fixed one, which has a scalar as
+non-array column value) are inside -/
+theorem C02_witnesses_carved : Carve wSkip = false ∧ Carve wDup = true := by
   constructor <;> rfl
 
-/-- both witnesses are outside the carve-out, and an ordinary body is inside it -/
-theorem C02_witnesses_carved (F : FloatSem) :
-    Carve F wSkip = false ∧ Carve F wDup = false := by
-  constructor <;> rfl
+/-! ## the property under the carve-out -/
+
+/-- **hit_agrees.** Whenever the typed fast path accepts a body inside `Carve`, the generic path
+accepts it too and yields one columnar record with the same measurement, the same columns (type,
+values, null positions), the same row count — equal up to the value of a generated time column. -/
+theorem C02_hit_agrees_partial (F : FloatSem) (hF : FloatLaws F) (san : Bytes → Bytes) (now : Int)
+    (b : Bytes) (r : TypedRec) (hc : Carve b = true) (h : typedPath F san now b = some r) :
+    ∃ r', genericPath F san now b = .ok [.col r'] ∧ maskRec r' = maskRec r :=
+  hit_agrees F san hF C02_nonarray_dup_fallback now b r hc h
+
+/-- **C02 under the carve-out**: for every byte string inside `Carve`, switching the typed fast path
+on or off does not change the observation. -/
+theorem C02_full_partial (F : FloatSem) (hF : FloatLaws F) (san : Bytes → Bytes) (now : Int)
+    (b : Bytes) (hc : Carve b = true) :
+    observe (decodeWith F san true now b) = observe (decodeWith F san false now b) := by
+  cases hp : typedPath F san now b with
+  | none => rw [C02_fallback_sound F san now b hp]
+  | some r =>
+    obtain ⟨r', hg, hm⟩ := C02_hit_agrees_partial F hF san now b r hc hp
+    simp [decodeWith, hp, hg, observe, maskItem, hm]
+
+/-- acceptance is unchanged inside the carve-out -/
+theorem C02_accept_iff_partial (F : FloatSem) (hF : FloatLaws F) (san : Bytes → Bytes) (now : Int)
+    (b : Bytes) (hc : Carve b = true) :
+    (∃ its, decodeWith F san true now b = .ok its) ↔ (∃ its, decodeWith F san false now b = .ok its) := by
+  have h := C02_full_partial F hF san now b hc
+  constructor <;> rintro ⟨its, hi⟩ <;> rw [hi] at h
+  · cases hg : decodeWith F san false now b with
+    | ok x => exact ⟨x, rfl⟩
+    | error e => rw [hg] at h; simp [observe] at h
+  · cases hg : decodeWith F san true now b with
+    | ok x => exact ⟨x, rfl⟩
+    | error e => rw [hg] at h; simp [observe] at h
+
+/-- non-vacuity: a body with an ignored scalar key, a duplicate non-array-then-array column key and
+no time column is inside `Carve` and is a typed hit -/
+example : Carve [0x83, 0xa1, 0x6d, 0xa1, 0x78, 0xa1, 0x7a, 0x05, 0xa7, 0x63, 0x6f, 0x6c, 0x75, 0x6d,
+    0x6e, 0x73, 0x82, 0xa1, 0x61, 0xc0, 0xa1, 0x61, 0x91, 0x01] = true := by rfl
+
+example (F : FloatSem) (san : Bytes → Bytes) (now : Int) :
+    (typedPath F san now [0x83, 0xa1, 0x6d, 0xa1, 0x78, 0xa1, 0x7a, 0x05, 0xa7, 0x63, 0x6f, 0x6c, 0x75,
+      0x6d, 0x6e, 0x73, 0x82, 0xa1, 0x61, 0xc0, 0xa1, 0x61, 0x91, 0x01]).isSome = true := by rfl
 
 /-! ## per-class agreement (the content of `C02_hit_agrees`) -/
 
